@@ -96,6 +96,9 @@ def check(ctx):
     rnd = random.Random(ctx.seed)
     rl = [random_history(rnd) for _ in range(400 if ctx.tier == "quick" else 6000)]
     fw.run_suite(ctx, exe, "S-tg/random", rl, "tag edit history", relcheck=relcheck)
+    # the per-kind setters (each kind has its own copy of the set-SSID / set-channel code): every sequence of up to three
+    from checks import c03
+    fw.run_suite(ctx, exe, "S-tg/setters-per-kind", c03.setter_lines(), "setter / remove sequence on a generated frame")
     # the same relation when an allocation is refused in the middle of a history: a call that reports failure leaves the
     # stored bytes and the recorded length exactly as they were (every request index of short histories, once each)
     fl = []
